@@ -228,7 +228,7 @@ def oracle(case, meta, impl):
         for i, t in zip(items, reads):
             if t[1] != expect_tok(i):
                 ok = False
-        if ok:
+        if ok and len(reads) >= len(items):
             # position at the end, good state after the last matching read; the extra read past the end must fail
             last = reads[len(items) - 1]
             if last[4] != last[2] or last[5] != "---":
